@@ -363,3 +363,34 @@ Example C18_ex_supermod :
   pd_check_supermodularity 2 (C18_ex_game [0; 1; 1; 3]%Q) 0 = None /\
   pd_check_supermodularity 2 (C18_ex_game [0; 1; 1; 1]%Q) 0 = Some (1%N, 0%N, 1%nat).
 Proof. vm_compute. auto. Qed.
+
+(* ---------- id-array side REGENERATED from coalition_ids.py (gen/CoalitionIdsGen.v, built from the NpArr.v operators) ----------
+   The generated definitions (Python parameter order: coalition, number_of_players) equal the hand model of Enum.v for
+   every n and every id (asserts included: both sides None), so all C18_*_ids theorems above hold of the generated
+   definitions.  Players / sizes are N on the generated side (N.of_nat is injective). *)
+From ICG Require Import NpArr CoalitionIdsGen CoalitionIdsGenProps.
+
+Theorem C18_idg_get_all_coalitions n : idg_get_all_coalitions (N.of_nat n) = alln n.
+Proof. exact (idg_get_all_coalitions_eq n). Qed.
+Print Assumptions C18_idg_get_all_coalitions.
+
+Theorem C18_idg_players n c : idg_players c (N.of_nat n) = option_map (map N.of_nat) (en_ids_players n c).
+Proof. exact (idg_players_eq n c). Qed.
+Print Assumptions C18_idg_players.
+
+Theorem C18_idg_get_size n c : idg_get_size c (N.of_nat n) = option_map N.of_nat (en_ids_size n c).
+Proof. exact (idg_get_size_eq n c). Qed.
+Print Assumptions C18_idg_get_size.
+
+Theorem C18_idg_sub_coalitions n c : idg_sub_coalitions c (N.of_nat n) = en_ids_sub n c.
+Proof. exact (idg_sub_coalitions_eq n c). Qed.
+Print Assumptions C18_idg_sub_coalitions.
+
+Theorem C18_idg_super_coalitions n c : idg_super_coalitions c (N.of_nat n) = en_ids_super n c.
+Proof. exact (idg_super_coalitions_eq n c). Qed.
+Print Assumptions C18_idg_super_coalitions.
+
+Example C18_ex_idg :
+  idg_players 5 3 = Some [0; 2]%N /\ idg_get_size 5 3 = Some 2%N /\ idg_sub_coalitions 5 3 = Some [0; 1; 4; 5]%N /\
+  idg_super_coalitions 5 3 = Some [5; 7]%N /\ idg_players 8 3 = None /\ idg_get_all_coalitions 2 = [0; 1; 2; 3]%N.
+Proof. vm_compute. auto 10. Qed.
